@@ -263,16 +263,91 @@ def rule_status_table(ctx):
     db = pyfront.pydb()
     fn = db.classes['Simulation'].defs.get('integrate')
     anchor(fn is not None, 'Simulation.integrate')
-    table = {}
+    # the variable that receives the status, and dictionaries of constants defined in the function
+    svar = None
+    dicts = {}
     for node in ast.walk(fn):
-        if isinstance(node, ast.If) and isinstance(node.test, ast.Compare) and isinstance(node.test.left, ast.Name) \
-                and node.test.left.id == 'ret_value' and isinstance(node.test.comparators[0], ast.Constant):
-            v = node.test.comparators[0].value
-            raises = []
-            for x in ast.walk(node):
-                if isinstance(x, ast.Raise) and x.exc is not None:
-                    raises.append(pyfront._name(x.exc.func) if isinstance(x.exc, ast.Call) else pyfront._name(x.exc))
-            table[v] = raises
+        if isinstance(node, ast.Assign) and len(node.targets) == 1 and isinstance(node.targets[0], ast.Name):
+            if isinstance(node.value, ast.Call) and isinstance(node.value.func, ast.Attribute) and node.value.func.attr == 'reb_simulation_integrate':
+                svar = node.targets[0].id
+            if isinstance(node.value, ast.Dict) and all(isinstance(k_, ast.Constant) for k_ in node.value.keys):
+                dicts[node.targets[0].id] = {k_.value: v_ for k_, v_ in zip(node.value.keys, node.value.values)}
+    anchor(svar is not None, 'Simulation.integrate stores the result of reb_simulation_integrate in a local')
+
+    def test_value(t, v):
+        """truth of a test for status == v; None when it does not depend on the status alone"""
+        if isinstance(t, ast.Compare) and len(t.ops) == 1 and isinstance(t.left, ast.Name) and t.left.id == svar:
+            rhs = t.comparators[0]
+            if isinstance(rhs, ast.Constant):
+                if isinstance(t.ops[0], ast.Eq):
+                    return v == rhs.value
+                if isinstance(t.ops[0], ast.NotEq):
+                    return v != rhs.value
+            keys = None
+            if isinstance(rhs, ast.Name) and rhs.id in dicts:
+                keys = set(dicts[rhs.id])
+            elif isinstance(rhs, (ast.Tuple, ast.List, ast.Set)) and all(isinstance(e_, ast.Constant) for e_ in rhs.elts):
+                keys = {e_.value for e_ in rhs.elts}
+            if keys is not None:
+                if isinstance(t.ops[0], ast.In):
+                    return v in keys
+                if isinstance(t.ops[0], ast.NotIn):
+                    return v not in keys
+        if isinstance(t, ast.BoolOp):
+            vals = [test_value(x, v) for x in t.values]
+            if isinstance(t.op, ast.And):
+                return False if any(x is False for x in vals) else (True if all(x is True for x in vals) else None)
+            return True if any(x is True for x in vals) else (False if all(x is False for x in vals) else None)
+        if isinstance(t, ast.UnaryOp) and isinstance(t.op, ast.Not):
+            x = test_value(t.operand, v)
+            return None if x is None else (not x)
+        return None
+
+    def raised(stmts, v, env, out, guarded):
+        for st in stmts:
+            if isinstance(st, ast.If):
+                tv = test_value(st.test, v)
+                if tv is True:
+                    raised(st.body, v, env, out, True)
+                elif tv is False:
+                    raised(st.orelse, v, env, out, guarded)
+                else:
+                    raised(st.body, v, env, out, guarded)
+                    raised(st.orelse, v, env, out, guarded)
+            elif isinstance(st, ast.Assign) and isinstance(st.value, ast.Subscript) and isinstance(st.value.value, ast.Name) and st.value.value.id in dicts \
+                    and isinstance(st.value.slice, ast.Name) and st.value.slice.id == svar and v in dicts[st.value.value.id]:
+                val = dicts[st.value.value.id][v]
+                tg = st.targets[0]
+                if isinstance(tg, ast.Tuple) and isinstance(val, ast.Tuple):
+                    for t_, x_ in zip(tg.elts, val.elts):
+                        if isinstance(t_, ast.Name):
+                            env[t_.id] = x_
+                elif isinstance(tg, ast.Name):
+                    env[tg.id] = val
+            elif isinstance(st, ast.Raise) and st.exc is not None and guarded:
+                f_ = st.exc.func if isinstance(st.exc, ast.Call) else st.exc
+                if isinstance(f_, ast.Subscript) and isinstance(f_.value, ast.Name) and f_.value.id in dicts and v in dicts[f_.value.id]:
+                    f_ = dicts[f_.value.id][v]
+                    if isinstance(f_, ast.Tuple):
+                        f_ = f_.elts[0]
+                if isinstance(f_, ast.Name) and f_.id in env:
+                    f_ = env[f_.id]
+                out.append(pyfront._name(f_))
+            elif isinstance(st, (ast.For, ast.While, ast.With, ast.Try)):
+                raised(getattr(st, 'body', []), v, env, out, guarded)
+    table = {}
+    for name_, v_ in st.items():
+        if v_ <= 0:
+            continue
+        out_ = []
+        raised(fn.body, v_, {}, out_, False)
+        handled = any(test_value(x.test, v_) is True for x in ast.walk(fn) if isinstance(x, ast.If))
+        if handled or out_:
+            table[v_] = out_
+    for node in ast.walk(fn):
+        if isinstance(node, ast.Compare) and isinstance(node.left, ast.Name) and node.left.id == svar and isinstance(node.comparators[0], ast.Constant) \
+                and isinstance(node.comparators[0].value, int) and node.comparators[0].value > 0 and node.comparators[0].value not in st.values():
+            table.setdefault(node.comparators[0].value, [])
     n = 0
     samples = []
     where = 'rebound/simulation.py:%d Simulation.integrate' % fn.lineno
@@ -282,6 +357,9 @@ def rule_status_table(ctx):
         n += 1
         anchor(name in STATUS_EXC, 'status %s has a documented Python meaning' % name)
         want = STATUS_EXC[name]
+        if v not in table and want is None:
+            samples.append('%s=%d -> no exception (not mentioned)' % (name, v))
+            continue
         if v not in table:
             ctx.report('R08.5', 'status:%s' % name, where, 'status %s=%d is not handled by Simulation.integrate: the exit condition is silently ignored' % (name, v))
             continue
